@@ -342,6 +342,10 @@ def _log_record(rec):
             os.close(fd)
 
 
+class LabAbort(KeyboardInterrupt):
+    """an interruption of run: a BaseException that is no Exception"""
+
+
 def _save_record(task, rec, record):
     """task.save_to_run_info(record); a refusal of a legal record is noted for the monitors before it propagates"""
     try:
@@ -420,7 +424,7 @@ def lab_run(task, spec, args):
     _save_record(task, rec, {})
     # statistics as they come out of numpy, a location, a shape: records are python objects, not only JSON-like data
     _save_record(task, rec, {'lab_uid': uid, 'mean': np.float64(0.25), 'count': np.int64(7), 'where': Path('out') / 'x', 'shape': (2, 3),
-                                 'hist': {3: 1, 12: 2}, 'best': float('inf')})
+                                 'hist': {3: 1, 12: 2}, 'best': float('inf'), 'note': 'to be continued\x85 \u2028é'})
     # a counter object recorded, updated and recorded again (each record shows the state at the moment it was added)
     from collections import defaultdict as _dd
     progress = _dd(int)
@@ -433,6 +437,10 @@ def lab_run(task, spec, args):
     if fault_kind == 'raise_after_log':
         _log_record(dict(rec, phase='fault'))
         raise LabFault(f'{full} fault raise_after_log uid={uid}')
+    if fault_kind == 'abort_after_log':
+        # the run is interrupted (Ctrl-C in a notebook, sys.exit in a callback): not an Exception
+        _log_record(dict(rec, phase='fault'))
+        raise LabAbort(f'{full} interrupted uid={uid}')
     task.logger.warning(f'LABMSG uid={uid} n=2 task={full}')
     _save_record(task, rec, {'lab_uid': uid, 'n': 2})
     kind = spec['data_kind']
